@@ -99,6 +99,10 @@ def stepLine (s : DState) (op _obs : String) : DState × String :=
       | .ok o => ({ s with acl := o.acl }, s!"st={stName o.status}")
       | .error f => (s, faultName f)
     | _, _ => (s, "bad-op")
+  -- the tar reader on a pax record cut off after the ACL value: the archive is truncated
+  | ["paxtrunc", _] => (s, "fatal")
+  -- ... and with ':' for the newline that ends the record: "Malformed pax attributes"
+  | ["paxcolon", _] => (s, "warn")
   | ["dump"] => (s, dumpAcl s.wide s.acl)
   | _ => (s, "bad-op")
 
